@@ -30,7 +30,7 @@ ASSUMPTIONS = ['a compound assignment inside an ast_names body that mutates a sh
 REAL = ['smartquery.*']
 STUB = ['host callbacks call / attempt / t / boom']
 REACH_PROBES = ('second_names_mapping', 'parse_failure_between_evals', 'body_raised', 'host_swallow', 'budget_abort_in_lambda', 'shadow_builtin', 'shadow_host', 'recursion',
-                'cross_eval_lambda', 'ast_names_body', 'failed_then_judged', 'depth_checked', 'hof_driver', 'same_source_other_mapping', 'eval_without_names')
+                'cross_eval_lambda', 'ast_names_body', 'failed_then_judged', 'depth_checked', 'hof_driver', 'same_source_other_mapping', 'eval_without_names', 'deep_dynamic_read')
 
 POOL = ['x', 'y', 'v', 'len', 'max', 'acc']
 HOFS = ['map', 'filter', 'reduce', 'sorted']
@@ -113,6 +113,17 @@ class G:
 
     def define(self):
         r = self.r
+        if r.random() < 0.06:
+            # a recursion dozens of frames deep whose innermost frame reads a parameter of the call that started it
+            # (names resolve through ALL the calls in progress, however many there are)
+            self.kinds.add('recursion')
+            self.kinds.add('deep_dynamic_read')
+            depth = r.choice([35, 45, 70])
+            self.extra_stmts = [['assign', 'down', ['lambda', ['p'], ['if', ['name', 'k9'], ['bin', '<=', ['name', 'p'], ['num', '0']],
+                                                                      ['call', 'down', [['bin', '-', ['name', 'p'], ['num', '1']]], 'plain']]]]]
+            self.local_fns = self.local_fns + ['f']
+            self.fixed_args = [['str', 'started-here'], ['num', str(depth)]]
+            return ['assign', 'f', ['lambda', ['k9', 'p'], ['call', 'down', [['name', 'p']], 'plain']]], 'f', 2
         fname = r.choice(['f', 'g', 'h'])
         n = r.choice([1, 1, 2])
         params = r.sample(POOL[:4] + ['p'] + (['list', 'dict'] if r.random() < 0.25 else []), n)
@@ -133,6 +144,8 @@ class G:
     def use(self, fname, n):
         r = self.r
         args = [r.choice([gen.num_tree(r, False), ['name', r.choice(POOL)], ['num', '2'], ['none']]) for _ in range(n)]
+        if getattr(self, 'fixed_args', None) and fname == 'f':
+            args = list(self.fixed_args)
         k = weighted(r, [('direct', 4), ('hof', 4), ('call', 2), ('attempt', 3)])
         if k == 'direct':
             return ['call', fname, args, 'plain']
@@ -166,13 +179,18 @@ class G:
             self.kinds.add('cross_eval_lambda')
             fname, n = r.choice(known)
         else:
+            self.extra_stmts, self.fixed_args = [], None
             st, fname, n = self.define()
+            stmts.extend(self.extra_stmts)
             stmts.append(st)
         if r.random() < 0.3:
             v = r.choice(POOL + (['list', 'dict'] if r.random() < 0.3 else []))
             if v in ('list', 'dict'):
                 self.kinds.add('shadow_builtin')
                 stmts.append(['assign', v, ['lambda', ['q'], ['str', 'shadowed-' + v]]])
+                if v == 'list' and r.random() < 0.5:
+                    # the literal [..] IS a call of whatever `list` is bound to - for 3 elements and for 70
+                    stmts.append(['assign', 'r1', ['list', [['num', str(i % 9)] for i in range(r.choice([1, 3, 70]))]]])
                 v = None
             if v is None:
                 pass
